@@ -17,6 +17,10 @@ CHECKS = {
          "other",
          "Decides the code-shape of the exit/diagnostics/output-file contract for all inputs: the only file write is os.WriteFile(outputFile) behind a successful Build and is the last runner step; a failing step stops the run and its error reaches main's os.Exit(1); no error is dropped anywhere in the module; count and numbered list are the same Collection; --quiet switches the only writer. I/O atomicity and cobra are trusted.",
          "DESIGN.md §4 C10"),
+ "C09": ("type-driven exhaustiveness of the merge composite literals, abstract evaluation of the combinator bodies over {nil, empty, non-empty}, SSA ordering rule for sort/clean/return in findFiles, freshness lint for per-file state, who-may-sort table",
+         "other",
+         "Decides the wiring the tests do not reach: every field of Input/Meta/Service is merged by the combinator its documented class requires with (earlier, later) operand order; the combinators have the documented selection behaviour for all operand shapes; the fold keeps the accumulator first; files are cleaned, then sorted, and that sorted slice is what is iterated; patterns keep flag order; decode state is fresh per file. Split invariance then follows algebraically; byte identity is not executed.",
+         "DESIGN.md §4 C09"),
 }
 NOT_YET = "check not built yet in this session (design in DESIGN.md §4); will be claimed once its rules run on /repo"
 
